@@ -18,7 +18,7 @@ RULE = (
     "fitting tables returned unchanged, fitted table survives write_pdb -> parse_pdb_atoms. Non-trivial = the table does not fit "
     "as given (renaming or refusal required); distinct = canonical JSON hash of the case descriptor."
 )
-ASSUMPTIONS = ["feasibility: atoms + chains <= 99999, chains <= 62, distinct (number, icode) per chain <= 9999", "table normalisation shared with C09 (vmon/props/c09.py:norm_df)"]
+ASSUMPTIONS = ["feasibility: atoms + chain runs (one TER each) <= 99999, chains <= 62, distinct (number, icode) per chain <= 9999", "table normalisation shared with C09 (vmon/props/c09.py:norm_df)"]
 REQUIRED_MONITORS = ["parser_v2.fit_to_pdb", "parser_v2.can_write_pdb"]
 REQUIRED_CLAUSES = ["fit.within-limits", "fit.fields-preserved", "fit.renaming-bijective", "fit.refusal-iff-infeasible", "fit.fitting-table-unchanged", "fit.written-and-read-back"]
 LANDMARKS = {
@@ -37,7 +37,13 @@ def feasible(rows):
         if r["chain"] not in chains:
             chains.append(r["chain"])
         per.setdefault(r["chain"], set()).add((r["resseq"], r["icode"]))
-    return len(rows) + len(chains) <= 99999 and len(chains) <= 62 and max((len(v) for v in per.values()), default=0) <= 9999
+    # every run of records of one chain (within a model) is closed by a TER record, which takes a serial number of its own
+    runs, last = 0, None
+    for r in rows:
+        if (r["model"], r["chain"]) != last:
+            runs += 1
+            last = (r["model"], r["chain"])
+    return len(rows) + max(runs, len(chains)) <= 99999 and len(chains) <= 62 and max((len(v) for v in per.values()), default=0) <= 9999
 
 
 def fits(rows):
@@ -148,8 +154,8 @@ def cases(shard, nshards, seed, tier):
     for i in range(8 if tier == "quick" else 80):
         if mine():
             yield {"family": "derived", "i": i}
-    for kind in (["many-chains", "many-residues", "exactly-62-chains", "many-residues-by-icode", "serial-exactly-99999", "resseq-exactly-9999"] if tier == "quick" else
-                 ["many-chains", "many-residues", "many-atoms", "exactly-62-chains", "exactly-9999-residues", "many-residues-by-icode", "exactly-9999-residues-by-icode", "serial-exactly-99999", "resseq-exactly-9999"]):
+    for kind in (["many-chains", "many-residues", "exactly-62-chains", "many-residues-by-icode", "serial-exactly-99999", "resseq-exactly-9999", "ten-models-just-under-100000-atoms"] if tier == "quick" else
+                 ["many-chains", "many-residues", "many-atoms", "exactly-62-chains", "exactly-9999-residues", "many-residues-by-icode", "exactly-9999-residues-by-icode", "serial-exactly-99999", "resseq-exactly-9999", "ten-models-just-under-100000-atoms"]):
         if mine():
             yield {"family": "limit", "kind": kind}
 
@@ -300,6 +306,16 @@ def run_case(case, rec):
                 for a in ("P", "C1'"):
                     serial += 1
                     rows.append(_row(serial, a, "Z", num, serial))
+        elif kind == "ten-models-just-under-100000-atoms":
+            # 99 990 atoms in ten models of four two-character chains: with one TER per chain and model the serials
+            # would pass 99 999 although atoms + distinct chains does not
+            for m in range(1, 11):
+                for ci, ch in enumerate(("AA", "BB", "CC", "DD")):
+                    for i in range(2500 if ci < 3 else 2499):
+                        serial += 1
+                        r = _row(serial, "P", ch, i + 1, serial)
+                        r["model"] = m
+                        rows.append(r)
         else:
             for i in range(100001):
                 serial += 1
